@@ -89,6 +89,20 @@ BUILD_SIDE = {"C02", "C03", "C04", "C05", "C06", "C07", "C14", "C16", "C17", "C1
 CHILD = {"C01", "C08", "C10", "C11", "C12", "C18"}
 ITER = {"C01", "C02", "C03", "C04", "C05", "C09", "C10", "C11", "C14", "C15"}
 ROUNDTRIP = {"C02", "C03", "C04", "C05"}
+_PARSE_TOTALS = "datagrams of three unremarkable tiles summing to every total size up to 9216 bytes, datagrams of 1100 / 1400 / 4000 / 24000-byte tiles whose total crosses 65507, 65536 and 262144 bytes (x 4 tails), SR / RR / BYE strings of every count 0..=31 x every length up to 900 bytes"
+_BUILD_TOTALS = "NACK windows and clusters across 0x8000 and the wrap, coinciding SSRCs, texts containing every one- and two-byte character, APP names with every ASCII byte, SDES chunks x items (1..=31 x 0..=80), items in total beyond 7905 / 8192 / 16384, every SDES item type with odd text, NACK words + padding reaching every multiple of 64 words, FIR at the size limit x paddings"
+TOTALS = {
+    "C01": _PARSE_TOTALS + "; NACK words whose entries reach the top of the number space",
+    "C08": _PARSE_TOTALS, "C12": _PARSE_TOTALS, "C18": _PARSE_TOTALS,
+    "C11": "datagrams of three tiles summing to every total size, datagrams of mid-size tiles across 65507 / 65536 / 262144 bytes x 4 tails",
+    "C09": "large datagrams of mid-size well-formed packets across 65507 / 65536 / 262144 bytes must be accepted tile by tile",
+    "C03": _BUILD_TOTALS, "C05": _BUILD_TOTALS, "C04": _BUILD_TOTALS, "C06": _BUILD_TOTALS, "C07": _BUILD_TOTALS, "C17": _BUILD_TOTALS, "C13": _BUILD_TOTALS,
+    "C16": _BUILD_TOTALS + "; every fraction-lost value x cumulative-loss values on both sides of 24 bits whose top byte relates to the fraction",
+    "C10": "reference images of SDES chunks x items, items in total beyond 8192, every item type with odd text; raw PRIV items of length 248..=255 x prefix length 244..=255",
+    "C14": "compounds of three unremarkable members summing to every total size up to 9216 bytes (thorough 32768)",
+    "C15": "pairs of NACK words whose second PID is the first plus 0..=18, first mask empty / each single bit / full, from four bases",
+    "C19": "compounds of 1400- and 4000-byte third-party / unknown members whose total passes 65536 and 262144 bytes",
+}
 DENSE = {
     "C01": "tiles per datagram (x 4 tails) and exactly framed packet sizes in words (x 9 types x 4 padding variants; 600 / 2304 words here)",
     "C03": "items per SDES chunk",
@@ -129,6 +143,8 @@ def main():
                 tech += "; iterator call histories with size_hint() after every call and the endings for-loop / count / last / nth / collect / fold / for_each / position / max_by_key / skip+step_by, and a second pass in which size_hint(), an observation ({:?} of the iterator, other values parsed and iterated) and a second iterator over the same value are operations placed anywhere in the history"
             if pid in DENSE:
                 tech += "; every-count spaces: every value 0..=2304 (thorough 8192) of " + DENSE[pid]
+            if pid in TOTALS:
+                tech += "; totals and values: " + TOTALS[pid]
             if pid in ROUNDTRIP:
                 tech += "; every built packet also written among other members (10 embedding contexts incl. nested compounds whose members have the sizes of the preceding packets in another order), the same writer used again (too-small buffer, second size, second and larger write), a sibling configuration of the same shape built, written and dropped first, a refusal asked again, an illegal padding set as the last call after the builder was queried; the re-set flavour gives report-block setters, the BYE reason and the PRIV prefix an illegal value first"
             checks.append({
